@@ -66,7 +66,7 @@ PostOK(orgs, species, popsize, id, post) ==
 Str(n) == ToString(n)
 Dir(trial) == Str(trial) \o "/"
 Counts(o) == Str(o.nc) \o "-" \o Str(o.lc)
-Prefix(kind) == IF kind = "xor" THEN "xor" ELSE "pole1"
+Prefix(kind) == IF kind = "xor" THEN "xor" ELSE IF kind = "pole" THEN "pole1" ELSE "pole2"
 ExpectedFiles(kind, orgs, trial, id, printevery, optn) ==
     LET c == WinnerChampion(orgs) IN
     (IF c # 0 \/ id % printevery = 0 THEN { Dir(trial) \o "gen_" \o Str(id) } ELSE {})
